@@ -220,3 +220,33 @@ def mech_layer(seed: int, n_cases: int) -> Dict[str, Any]:
                 "shapes": sorted(shapes, key=str), "sample": parts[0]["sample"], "wall_s": round(time.time() - t0, 2)}
 
     return fw.cached("mech", {"seed": seed, "n": n_cases}, compute)
+
+
+def generic_layer(name: str, module: str, seed: int, n_cases: int, mult: int, extra_sums=("steps", "rows")) -> Dict[str, Any]:
+    """function-level layers whose module has `worker((seed, count)) -> {n, findings, n_findings, shapes, sample, …}`"""
+
+    def compute() -> Dict[str, Any]:
+        import importlib
+
+        mod = importlib.import_module(f"harness.{module}")
+        per = max(1, n_cases // N_WORKERS)
+        t0 = time.time()
+        with ProcessPoolExecutor(max_workers=N_WORKERS) as ex:
+            parts = list(ex.map(mod.worker, [(seed * mult + i, per) for i in range(N_WORKERS)]))
+        shapes = set()
+        findings = []
+        for p in parts:
+            shapes.update(tuple(s) if isinstance(s, list) else s for s in p["shapes"])
+            findings += p["findings"]
+        out = {"cases": sum(p["n"] for p in parts), "findings": findings[:40], "n_findings": sum(p["n_findings"] for p in parts),
+               "shapes": sorted(shapes, key=str), "sample": parts[0]["sample"], "wall_s": round(time.time() - t0, 2)}
+        for k in extra_sums:
+            out[k] = sum(p.get(k, 0) for p in parts)
+        return out
+
+    return fw.cached(name, {"seed": seed, "n": n_cases}, compute)
+
+
+def timed_layer(seed: int, n_cases: int) -> Dict[str, Any]:
+    """request files and price tables through the real pre-step update functions (C11)"""
+    return generic_layer("timed", "timed", seed, n_cases, 49979687)
